@@ -8,9 +8,10 @@ use crate::refxml::{self, RefDoc, RefItem, RefNode, Style};
 use crate::report::{cpu_count, run_shards, Report};
 use crate::rng::{hash_bytes, Rng};
 use crate::rx::Dfa;
+use crate::specwalk::SpecWalk;
 use crate::walk::{dump_tree, DumpOpts, Tree};
 use autosar_data::*;
-use autosar_data_specification::{CharacterDataSpec, ContentMode, ElementMultiplicity, ElementType};
+use autosar_data_specification::{AttributeName, CharacterDataSpec, ContentMode, ElementMultiplicity, ElementType};
 use std::str::FromStr;
 
 fn viol(rep: &mut Report, rule: &str, pred: &str, detail: String, bytes: &[u8]) {
@@ -431,6 +432,223 @@ fn mutate_bytes(rng: &mut Rng, bytes: &[u8]) -> Vec<u8> {
     b
 }
 
+/// non-members of a pattern derived from its automaton: all words up to a small length over one printable
+/// representative per byte class, and every access string of the minimal DFA extended by one and two symbols.
+/// Only printable ASCII without XML meta characters and without blanks (the loader trims values), shortest first.
+pub fn derived_non_members(d: &Dfa) -> Vec<String> {
+    let ok = |b: u8| (0x21..=0x7e).contains(&b) && !matches!(b, b'<' | b'&' | b'>' | b'"' | b'\'');
+    let sym_byte: Vec<Option<u8>> = (0..d.n_symbols).map(|s| (0x21u8..=0x7e).find(|b| d.byte_class[*b as usize] == s && ok(*b))).collect();
+    let alphabet: Vec<u8> = sym_byte.iter().flatten().copied().collect();
+    let maxlen = if alphabet.len() <= 6 { 5 } else if alphabet.len() <= 10 { 4 } else if alphabet.len() <= 24 { 3 } else { 2 };
+    let mut out: Vec<Vec<u8>> = Vec::new();
+    let mut level: Vec<Vec<u8>> = vec![Vec::new()];
+    for _ in 0..maxlen {
+        let mut next = Vec::new();
+        for w in &level {
+            for a in &alphabet {
+                let mut x = w.clone();
+                x.push(*a);
+                next.push(x);
+            }
+        }
+        out.extend(next.iter().cloned());
+        level = next;
+    }
+    for acc in d.access_strings().iter().flatten() {
+        let Some(base) = acc.iter().map(|s| sym_byte[*s]).collect::<Option<Vec<u8>>>() else { continue };
+        for a in &alphabet {
+            let mut x = base.clone();
+            x.push(*a);
+            for b in &alphabet {
+                let mut y = x.clone();
+                y.push(*b);
+                out.push(y);
+            }
+            out.push(x);
+        }
+    }
+    out.retain(|w| !w.is_empty() && !d.matches(w));
+    out.sort_by(|a, b| a.len().cmp(&b.len()).then(a.cmp(b)));
+    out.dedup();
+    out.into_iter().filter_map(|w| String::from_utf8(w).ok()).collect()
+}
+
+/// directed part of O2 for pattern restricted values: at one pattern-typed element of the document, a run of
+/// automaton-derived non-members (continuing where the previous document with this pattern stopped) must each be
+/// rejected by strict loading
+fn pattern_sweep(sub: &mut Report, rng: &mut Rng, doc: &RefDoc, version: AutosarVersion, style: Style, k: usize, run_len: usize) {
+    thread_local! {
+        static CACHE: std::cell::RefCell<std::collections::HashMap<String, Vec<String>>> = std::cell::RefCell::new(std::collections::HashMap::new());
+    }
+    let mut sites = Vec::new();
+    collect_sites(&doc.root, ElementType::ROOT, version, &mut Vec::new(), &mut sites);
+    let mut cands: Vec<(Vec<usize>, &'static str)> = Vec::new();
+    for st in &sites {
+        if let Some(CharacterDataSpec::Pattern { regex, .. }) = st.etype.chardata_spec() {
+            let mut probe = doc.clone();
+            let n = node_mut(&mut probe.root, &st.path);
+            if n.name != "SHORT-NAME" && !n.items.iter().any(|i| matches!(i, RefItem::Elem(_))) {
+                cands.push((st.path.clone(), regex));
+            }
+        }
+    }
+    // deterministic in the case number: which site, and where in the candidate list this run starts
+    if cands.is_empty() {
+        return;
+    }
+    let (path, regex) = cands[k % cands.len()].clone();
+    let texts: Vec<String> = CACHE.with(|c| {
+        let mut c = c.borrow_mut();
+        let list = c.entry(regex.to_string()).or_insert_with(|| Dfa::new(regex).map(|d| derived_non_members(&d)).unwrap_or_default());
+        if list.is_empty() {
+            return Vec::new();
+        }
+        let start = (k / 3 * run_len) % list.len();
+        (0..run_len.min(list.len())).map(|i| list[(start + i) % list.len()].clone()).collect()
+    });
+    for text in texts {
+        let mut bad = doc.clone();
+        node_mut(&mut bad.root, &path).items = vec![RefItem::Text(text.clone(), 0, 0)];
+        let bytes = refxml::render(rng, style, &bad);
+        sub.count("injected.pattern-non-member.derived-from-automaton", 1);
+        sub.distinct_in("pattern_sweep.regexes", crate::rng::hash_bytes(regex.as_bytes()));
+        let (s2, _) = differential(sub, &bytes, "injected");
+        if s2 {
+            // the signature names the pattern and the place where the value leaves its language (as C19 does), so that
+            // the known deviations of four generated validators do not hide a hole in another one
+            let key = Dfa::new(regex).map(|d| crate::c19::leave_key(&d, text.as_bytes())).unwrap_or_default();
+            viol(sub, "hole/strict-accepts-defect", &format!("pattern-non-member:{regex}:{key}"), format!("a {version:?} document in which a value of pattern /{regex}/ is the non-member {text:?} is accepted by strict loading"), &bytes);
+        }
+    }
+}
+
+/// a shortest member of the pattern made of printable ASCII (None if the language needs other bytes)
+fn derived_member(d: &Dfa) -> Option<String> {
+    let ok = |b: u8| (0x21..=0x7e).contains(&b) && !matches!(b, b'<' | b'&' | b'>' | b'"' | b'\'');
+    let sym_byte: Vec<Option<u8>> = (0..d.n_symbols).map(|s| (0x21u8..=0x7e).find(|b| d.byte_class[*b as usize] == s && ok(*b))).collect();
+    let acc = d.access_strings();
+    let mut best: Option<Vec<u8>> = None;
+    for (st, a) in acc.iter().enumerate() {
+        let Some(a) = a else { continue };
+        if !d.accept[st] || a.is_empty() {
+            continue;
+        }
+        if let Some(w) = a.iter().map(|s| sym_byte[*s]).collect::<Option<Vec<u8>>>() {
+            if best.as_ref().is_none_or(|b| w.len() < b.len()) {
+                best = Some(w);
+            }
+        }
+    }
+    best.and_then(|w| String::from_utf8(w).ok())
+}
+
+/// a document that consists of the chain of elements from the root to one element of type `t`, which carries `value`
+/// as its content (attr = None) or as the value of the attribute `attr`
+fn micro_doc(walk: &SpecWalk, t: ElementType, version: AutosarVersion, attr: Option<AttributeName>, value: &str) -> Vec<u8> {
+    let path = walk.path_to(t);
+    let mut s = crate::specdoc::header(version);
+    for (i, (et, name, _)) in path.iter().enumerate() {
+        let leaf = i + 1 == path.len();
+        if leaf {
+            match attr {
+                Some(a) => s.push_str(&format!("<{name} {a}=\"{value}\">")),
+                None => s.push_str(&format!("<{name}>{value}")),
+            }
+        } else {
+            s.push_str(&format!("<{name}>"));
+        }
+        let next_is_short_name = path.get(i + 1).is_some_and(|(_, n, _)| *n == ElementName::ShortName);
+        if et.is_named_in_version(version) && !next_is_short_name && !(leaf && attr.is_none()) {
+            s.push_str(&format!("<SHORT-NAME>n{i}</SHORT-NAME>"));
+        }
+    }
+    for (_, name, _) in path.iter().rev() {
+        s.push_str(&format!("</{name}>"));
+    }
+    s.push_str("</AUTOSAR>");
+    s.into_bytes()
+}
+
+/// directed part of O2 for pattern restricted values: for every pattern of the specification, at up to `sites`
+/// element / attribute sites whose minimal document is accepted strictly with a member of the pattern, every
+/// automaton-derived non-member must be rejected by strict loading
+fn pattern_directed(rep: &mut Report, thorough: bool) {
+    let walk = SpecWalk::new();
+    let mut by_regex: std::collections::BTreeMap<&'static str, Vec<(ElementType, Option<AttributeName>, u32)>> = std::collections::BTreeMap::new();
+    for info in &walk.types {
+        let pv = crate::genmodel::path_versions(&walk, info.etype);
+        if pv == 0 || info.etype == ElementType::ROOT {
+            // (the root element is written by the document header, not by micro_doc)
+            continue;
+        }
+        if let Some(CharacterDataSpec::Pattern { regex, .. }) = info.etype.chardata_spec() {
+            by_regex.entry(regex).or_default().push((info.etype, None, pv));
+        }
+        for (an, spec, _) in info.etype.attribute_spec_iter() {
+            if let CharacterDataSpec::Pattern { regex, .. } = spec {
+                let av = info.etype.find_attribute_spec(an).map_or(0, |a| a.version);
+                if pv & av != 0 {
+                    by_regex.entry(regex).or_default().push((info.etype, Some(an), pv & av));
+                }
+            }
+        }
+    }
+    let regexes: Vec<(&'static str, Vec<(ElementType, Option<AttributeName>, u32)>)> = by_regex.into_iter().collect();
+    rep.count("pattern_directed.patterns_of_the_specification", regexes.len() as u64);
+    let max_sites = if thorough { 8 } else { 2 };
+    let (walk_ref, regexes_ref) = (&walk, &regexes);
+    run_shards(rep, regexes.len(), cpu_count(), 16, |i, sub| {
+        let (regex, sites) = &regexes_ref[i];
+        let Ok(dfa) = Dfa::new(regex) else {
+            sub.count("pattern_directed.patterns_without_automaton", 1);
+            return;
+        };
+        let Some(member) = derived_member(&dfa) else {
+            sub.count("pattern_directed.patterns_without_printable_member", 1);
+            return;
+        };
+        let non = derived_non_members(&dfa);
+        let mut used = 0;
+        let (mut used_elem, mut used_attr) = (0, 0);
+        for (t, attr, mask) in sites {
+            if (attr.is_none() && used_elem >= max_sites) || (attr.is_some() && used_attr >= max_sites) {
+                continue;
+            }
+            let Some(version) = crate::specwalk::ALL_VERSIONS.iter().rev().find(|v| mask & **v as u32 != 0).copied() else { continue };
+            let base = micro_doc(walk_ref, *t, version, *attr, &member);
+            let accepted = AutosarModel::new().load_buffer(&base, "base.arxml", true).is_ok();
+            if !accepted {
+                sub.count("pattern_directed.sites_whose_minimal_document_is_rejected(skipped)", 1);
+                continue;
+            }
+            used += 1;
+            if attr.is_some() {
+                used_attr += 1;
+                sub.count("pattern_directed.attribute_sites", 1);
+            } else {
+                used_elem += 1;
+                sub.count("pattern_directed.element_sites", 1);
+            }
+            for text in &non {
+                let bytes = micro_doc(walk_ref, *t, version, *attr, text);
+                sub.count("pattern_directed.non_members_injected", 1);
+                let (s2, _) = differential(sub, &bytes, "injected");
+                if s2 {
+                    let key = crate::c19::leave_key(&dfa, text.as_bytes());
+                    viol(sub, "hole/strict-accepts-defect", &format!("pattern-non-member:{regex}:{key}"), format!("a {version:?} document in which {} of pattern /{regex}/ is the non-member {text:?} is accepted by strict loading", match attr { Some(a) => format!("the attribute {a}"), None => "a value".to_string() }), &bytes);
+                }
+            }
+        }
+        if used > 0 {
+            sub.count("pattern_directed.patterns_swept", 1);
+        } else {
+            sub.count("pattern_directed.patterns_without_usable_site", 1);
+        }
+    });
+    rep.require("pattern_directed.patterns_swept", 20);
+    rep.require("pattern_directed.non_members_injected", 20_000);
+}
+
 pub fn run(rep: &mut Report, tier: &str) {
     crate::panicmon::install();
     let thorough = tier == "thorough";
@@ -464,6 +682,9 @@ pub fn run(rep: &mut Report, tier: &str) {
             let class = CLASSES[(case % CLASSES.len() as u64) as usize];
             let mut bad = doc.clone();
             let mut post = Vec::new();
+            if class == "pattern-non-member" {
+                pattern_sweep(sub, &mut rng, &doc, version, style, case as usize / CLASSES.len(), if thorough { 120 } else { 40 });
+            }
             if !inject(&mut rng, &mut bad, version, class, &mut post) {
                 sub.count(&format!("injection_not_applicable.{class}"), 1);
                 continue;
@@ -480,9 +701,11 @@ pub fn run(rep: &mut Report, tier: &str) {
             }
         }
     });
+    pattern_directed(rep, thorough);
     for class in CLASSES {
         rep.require(&format!("injected.{class}"), if thorough { 500 } else { 15 });
     }
+    rep.require("injected.pattern-non-member.derived-from-automaton", if thorough { 200_000 } else { 8_000 });
     rep.require("both_accept.valid", (n / 3) as u64);
     rep.require("strict_rejects_lenient_warns.injected", 100);
 }
